@@ -79,6 +79,9 @@ pub enum BOp {
     /// `query_aggregate("count(?x) WHERE <goal>")` — or, malformed, `… WHERE ((` — on the long-lived engine
     /// (C11 only); the answer is compared with a fresh engine's, and it is one more query "asked first"
     QueryAggregate(u8, bool),
+    /// the owner of the long-lived engine disables / re-enables a rule in its knowledge base and rebuilds the
+    /// conclusion index; from then on 'the rule set' is the set of enabled rules
+    ToggleRule(u8),
 }
 
 #[derive(Clone, Debug, Serialize, Deserialize, PartialEq)]
@@ -241,6 +244,17 @@ fn build_kb(types: &[Ty], rules: &[BRule]) -> KnowledgeBase {
             actions.push(ActionType::MethodCall { object: "Ghost".to_string(), method: "poke".to_string(), args: vec![] });
         }
         let _ = kb.add_rule(Rule::new(format!("R{i}"), cond_group(types, &r.cond), actions));
+    }
+    kb
+}
+
+/// the knowledge base with some rules disabled (the same calls the long-lived engine's owner makes)
+fn build_kb_with(types: &[Ty], rules: &[BRule], enabled: &[bool]) -> KnowledgeBase {
+    let kb = build_kb(types, rules);
+    for (i, e) in enabled.iter().enumerate() {
+        if !*e {
+            let _ = kb.set_rule_enabled(&format!("R{i}"), false);
+        }
     }
     kb
 }
@@ -644,6 +658,8 @@ fn run_search(
     // the configuration in force; `SetConfig` changes it mid-history
     let (mut max_depth, mut strategy, mut max_solutions, mut memo) = (max_depth, strategy, max_solutions, memo);
     let mut engine = BackwardEngine::with_config(build_kb(types, rules), mkcfg(max_depth, strategy, max_solutions, memo));
+    // which rules are enabled; `ToggleRule` changes it mid-history
+    let mut enabled: Vec<bool> = vec![true; rules.len()];
     let rete: Option<Arc<Mutex<IncrementalEngine>>> = if attach_rete { Some(Arc::new(Mutex::new(IncrementalEngine::new()))) } else { None };
     let mut rete_handles: Vec<FactHandle> = Vec::new();
     let mut facts = Facts::new();
@@ -658,7 +674,18 @@ fn run_search(
     let mut asked: BTreeSet<String> = BTreeSet::new();
     for (step, op) in ops.iter().enumerate() {
         let site = site_of(strategy);
+        let active_rules: Vec<BRule> = rules.iter().zip(&enabled).filter(|(_, e)| **e).map(|(r, _)| r.clone()).collect();
+        let active: &[BRule] = &active_rules;
         match op {
+            BOp::ToggleRule(i) => {
+                if !rules.is_empty() {
+                    let k = *i as usize % rules.len();
+                    enabled[k] = !enabled[k];
+                    let _ = engine.knowledge_base().set_rule_enabled(&format!("R{k}"), enabled[k]);
+                    engine.rebuild_index();
+                    obs.count(if enabled[k] { "probe.rule_enabled_again_mid_history" } else { "probe.rule_disabled_mid_history" });
+                }
+            }
             BOp::SetConfig { strategy: st, max_solutions: ms, memo: me, max_depth: md } => {
                 if md.map_or(false, |d| d != max_depth) {
                     obs.count("probe.reconfigured_with_another_max_depth");
@@ -693,7 +720,7 @@ fn run_search(
                         return Ok(());
                     }
                 };
-                let mut e2 = BackwardEngine::with_config(build_kb(types, rules), mkcfg(max_depth, strategy, max_solutions, memo));
+                let mut e2 = BackwardEngine::with_config(build_kb_with(types, rules, &enabled), mkcfg(max_depth, strategy, max_solutions, memo));
                 let mut f2 = facts_from(&before);
                 let fresh = match run_aggregate(&mut e2, &text, &mut f2) {
                     Some(r) => r,
@@ -761,7 +788,9 @@ fn run_search(
                     continue;
                 }
                 let negated = matches!(op, BOp::QueryNot(_));
-                if negated && prop != "C11" {
+                // negated queries need no reference semantics for C11 (engines are compared with each other) nor
+                // for C10 (facts before and after a failed query are compared); C09's clauses do
+                if negated && prop == "C09" {
                     continue;
                 }
                 let goal = &goals[*g as usize % goals.len()];
@@ -788,10 +817,10 @@ fn run_search(
                     }
                 }
                 obs.fp_str(&format!("{}|{:?}", out.provable, out.after));
-                judge(prop, site, types, rules, goal, &before, &out, max_depth, strategy, max_solutions, step, obs, "long-lived engine", )?;
+                judge(prop, site, types, active, goal, &before, &out, max_depth, strategy, max_solutions, step, obs, "long-lived engine", )?;
                 // a freshly built engine on a deep copy of the facts as they stood
                 let fresh_here = {
-                    let mut e2 = BackwardEngine::with_config(build_kb(types, rules), mkcfg(max_depth, strategy, max_solutions, memo));
+                    let mut e2 = BackwardEngine::with_config(build_kb_with(types, rules, &enabled), mkcfg(max_depth, strategy, max_solutions, memo));
                     let mut f2 = facts_from(&before);
                     let rete2: Option<Arc<Mutex<IncrementalEngine>>> = if attach_rete { Some(Arc::new(Mutex::new(IncrementalEngine::new()))) } else { None };
                     match run_query(&mut e2, &gt, &mut f2, &rete2) {
@@ -803,7 +832,7 @@ fn run_search(
                         Err(e) => return Err(Violation::new(prop, "query.returns", site, "query-error-or-panic", format!("fresh engine, `{gt}`: {e}"), step)),
                     }
                 };
-                judge(prop, site, types, rules, goal, &before, &fresh_here, max_depth, strategy, max_solutions, step, obs, "fresh engine")?;
+                judge(prop, site, types, active, goal, &before, &fresh_here, max_depth, strategy, max_solutions, step, obs, "fresh engine")?;
                 if prop == "C11" && fresh_here.provable != out.provable {
                     let sig = if memo && queries > 1 { "long-lived-engine-disagrees-with-fresh-engine-memoisation-on" } else { "long-lived-engine-disagrees-with-fresh-engine" };
                     let v = Violation::new("C11", "history.independent", site, sig, format!("query #{queries} `{gt}`: the long-lived engine says provable = {}, a freshly built engine on a copy of the same facts says {}", out.provable, fresh_here.provable), step);
@@ -814,16 +843,16 @@ fn run_search(
                 // fresh engines under further hash seeds
                 let mut verdicts: Vec<(u64, bool)> = Vec::new();
                 for hs in alt_hash_seeds {
-                    let (types2, rules2, before2, gt2, cfg2) = (types.to_vec(), rules.to_vec(), before.clone(), gt.clone(), mkcfg(max_depth, strategy, max_solutions, memo));
+                    let (types2, rules2, enabled2, before2, gt2, cfg2) = (types.to_vec(), rules.to_vec(), enabled.clone(), before.clone(), gt.clone(), mkcfg(max_depth, strategy, max_solutions, memo));
                     let r = hashseed::on_seeded_thread(*hs, move || {
-                        let mut e3 = BackwardEngine::with_config(build_kb(&types2, &rules2), cfg2);
+                        let mut e3 = BackwardEngine::with_config(build_kb_with(&types2, &rules2, &enabled2), cfg2);
                         let mut f3 = facts_from(&before2);
                         let rete3: Option<Arc<Mutex<IncrementalEngine>>> = if attach_rete { Some(Arc::new(Mutex::new(IncrementalEngine::new()))) } else { None };
                         run_query(&mut e3, &gt2, &mut f3, &rete3)
                     });
                     match r {
                         Ok(Ok(o)) => {
-                            judge(prop, site, types, rules, goal, &before, &o, max_depth, strategy, max_solutions, step, obs, &format!("fresh engine under hash seed {hs}"))?;
+                            judge(prop, site, types, active, goal, &before, &o, max_depth, strategy, max_solutions, step, obs, &format!("fresh engine under hash seed {hs}"))?;
                             verdicts.push((*hs, o.provable));
                             if o.after != fresh_here.after {
                                 obs.count("probe.returned_facts_differ_between_hash_seeds");
@@ -1011,7 +1040,7 @@ fn run_frames(ops: &[FrameOp], obs: &mut Obs) -> Result<(), Violation> {
     Ok(())
 }
 
-fn gen_search(rng: &mut Rng, hash_seed: u64, with_negation: bool) -> BwdTrace {
+fn gen_search(rng: &mut Rng, hash_seed: u64, c11_ops: bool, with_negation: bool) -> BwdTrace {
     let domain = rng.usize(4); // 0 bool, 1 string, 2 integer, 3 mixed bool/string
     let types: Vec<Ty> = (0..NF)
         .map(|_| match domain {
@@ -1112,7 +1141,7 @@ fn gen_search(rng: &mut Rng, hash_seed: u64, with_negation: bool) -> BwdTrace {
     let nops = 1 + rng.usize(6);
     let mut ops = Vec::new();
     for _ in 0..nops {
-        let w = rng.weighted(&[55, 20, 5, 5, if attach_rete { 8 } else { 0 }, if attach_rete { 6 } else { 0 }, if with_negation { 8 } else { 0 }, 6, 5, if with_negation { 8 } else { 0 }]);
+        let w = rng.weighted(&[55, 20, 5, 5, if attach_rete { 8 } else { 0 }, if attach_rete { 6 } else { 0 }, if c11_ops { 8 } else { 0 }, 6, 5, if c11_ops { 8 } else { 0 }, 6]);
         ops.push(match w {
             0 => {
                 if with_negation && rng.chance(1, 4) {
@@ -1129,6 +1158,7 @@ fn gen_search(rng: &mut Rng, hash_seed: u64, with_negation: bool) -> BwdTrace {
             6 => BOp::Retype(rng.below(NF as u64) as u8),
             8 => BOp::SetFactNull(rng.below(NF as u64) as u8),
             9 => BOp::QueryAggregate(rng.below(3) as u8, rng.chance(1, 3)),
+            10 => BOp::ToggleRule(rng.below(16) as u8),
             _ => BOp::SetConfig { strategy: *rng.pick(&[0u8, 0, 1, 2]), max_solutions: *rng.pick(&[1usize, 1, 3]), memo: rng.chance(2, 3), max_depth: if rng.chance(1, 3) { Some(*rng.pick(&[0usize, 1, 2, 3, 4])) } else { None } },
         });
     }
@@ -1155,7 +1185,7 @@ impl World for BwdWorld {
         "bwd"
     }
     fn info(&self, prop: &str) -> WorldInfo {
-        let mut probes = vec!["fault.rule_action_errors_midway", "probe.reconfigured_with_the_same_max_depth", "probe.reconfigured_with_another_max_depth", "probe.program_of_more_than_8_rules", "probe.alt_hash_seed_query", "probe.returned_facts_differ_between_hash_seeds", "probe.history_of_two_or_more_queries", "probe.caller_changed_a_fact", "probe.same_query_asked_again", "probe.retraction_in_attached_engine"];
+        let mut probes = vec!["fault.rule_action_errors_midway", "probe.reconfigured_with_the_same_max_depth", "probe.reconfigured_with_another_max_depth", "probe.program_of_more_than_8_rules", "probe.rule_disabled_mid_history", "probe.rule_enabled_again_mid_history", "probe.alt_hash_seed_query", "probe.returned_facts_differ_between_hash_seeds", "probe.history_of_two_or_more_queries", "probe.caller_changed_a_fact", "probe.same_query_asked_again", "probe.retraction_in_attached_engine"];
         match prop {
             "C09" => probes.extend(["probe.provable_query", "probe.complete_clause_applicable", "probe.derivation_of_height_2_or_more", "probe.derivation_deeper_than_max_depth", "probe.chain_derivation_of_height_2_or_more"]),
             "C10" => probes.extend(["probe.unprovable_query", "probe.failed_query_with_derivable_intermediate_facts", "probe.nested_frame_committed", "probe.frame_rolled_back", "probe.flat_dotted_key_written"]),
@@ -1209,7 +1239,7 @@ impl World for BwdWorld {
                 .collect();
             return BwdTrace::Frames { hash_seed, ops };
         }
-        gen_search(rng, hash_seed, prop == "C11")
+        gen_search(rng, hash_seed, prop == "C11", prop != "C09")
     }
 
     fn hash_seed(&self, t: &BwdTrace) -> u64 {
